@@ -6,6 +6,7 @@ Model: Emboss/Model/Deps.lean (mirrors dependency_checker.py).
 -/
 import Emboss.Lemmas.Deps
 import Emboss.Lemmas.TarjanMain
+import Emboss.Lemmas.DepsMore
 namespace Emboss.Deps
 
 /-- Every field of `fields_in_dependency_order` comes after all fields (or runtime
@@ -150,5 +151,108 @@ example : findCycles [(0, [1]), (1, [2]), (2, [])] = .ok [] := by decide
 example : findCycles [(0, [1])] = .keyError := by decide
 example : cyclic [(0, [1]), (1, [0])] 0 :=
   .step (b := 1) (by decide) (.single (by decide))
+
+/-! ## Stability of the ordering, and the link between the two halves -/
+
+/-- `C15_order_least`: among all dependency-respecting arrangements of the fields the
+produced order is the lexicographically least w.r.t. source positions (fields numbered in
+source order) — "each field moves back only as far as its dependencies force it". -/
+theorem C15_order_least (deps : DepFn) (params fields p : List Nat)
+    (hs : fields.Pairwise (· < ·)) (hp : p.Perm fields) (ht : TopoFrom deps params p) :
+    LexLe (order deps params fields) p :=
+  orderAux_least deps _ _ _ _ hs (Nat.le_refl _) hp ht
+
+example : order exDeps [7] [0, 1, 2] = [1, 2, 0] ∧ TopoFrom exDeps [7] [2, 0, 1] ∧
+    LexLe [1, 2, 0] [2, 0, 1] := ⟨by decide, by decide, .lt _ _ (by decide)⟩
+
+/-- The two halves together: if cycle detection reported nothing for the graph `g` and
+every reference of a field of the structure goes to a field or parameter of the same
+structure, then the Python `assert len(order) == len(structure.field)` cannot fire, and
+the order is a permutation of the fields. -/
+theorem C15_assert_cannot_fire (g : Graph) (params fields : List Nat)
+    (hcyc : findCycles g = .ok [])
+    (hdeps : ∀ f ∈ fields, ∀ d ∈ succs g f, d ∈ fields ∨ d ∈ params) :
+    ∃ o, orderChecked (succs g) params fields = some o ∧ o.Perm fields := by
+  have hac : ∀ a, ¬ cyclic g a := fun a ha =>
+    ((C15_cycle_iff g [] hcyc).mpr ⟨a, ha⟩) rfl
+  have hlen := orderAux_total_of_acyclic g hac fields.length params fields (Nat.le_refl _) hdeps
+  have hoc : orderChecked (succs g) params fields = some (order (succs g) params fields) := by
+    simp [orderChecked, order, hlen]
+  exact ⟨_, hoc, C15_order_perm _ _ _ _ hoc⟩
+
+example : findCycles [(0, [2]), (1, []), (2, [7]), (7, [])] = .ok [] ∧
+    orderChecked (succs [(0, [2]), (1, []), (2, [7]), (7, [])]) [7] [0, 1, 2] = some [1, 2, 0] := by
+  decide
+
+/-! ## Error construction, edge extraction, import graph -/
+
+/-- The error groups are emitted in sorted order (`sorted(cycles, key=sorted)`), each
+group lists its component in sorted order (`sorted(cycle)`), and nothing is lost: the
+result is a pure function of the *set* of components. -/
+theorem C15_groups_sorted (comps : List (List Nat)) :
+    (cycleGroups comps).Pairwise (fun a b => lexLe a b = true) ∧
+    (∀ G ∈ cycleGroups comps, G.Pairwise (· ≤ ·) ∧ ∃ C ∈ comps, G.Perm C) ∧
+    (cycleGroups comps).length = comps.length := by
+  refine ⟨isort_sorted _ lexLe_total lexLe_trans _, fun G hG => ?_, ?_⟩
+  · have hG' := (isort_perm lexLe _).subset hG
+    obtain ⟨C, hC, rfl⟩ := List.mem_map.mp hG'
+    refine ⟨?_, C, hC, isort_perm _ _⟩
+    have := isort_sorted (fun a b : Nat => decide (a ≤ b)) (fun a b => by simp; omega)
+      (fun a b c h1 h2 => by simp at h1 h2 ⊢; omega) C
+    exact this.imp (fun h => by simpa using h)
+  · have := (isort_perm lexLe (comps.map (isort fun a b => decide (a ≤ b)))).length_eq
+    simpa [cycleGroups] using this
+
+example : cycleGroups [[4, 3], [2, 1, 0], [5]] = [[0, 1, 2], [3, 4], [5]] := by decide
+
+/-- `_find_dependencies`: `a` gets an edge to `b` exactly when some reference below `a`
+that is outside attributes — and, for bare references (enum constants), outside atomic
+types — has head `b`. -/
+theorem C15_dependency_edges (defs : List Defn) (hnd : (defs.map (·.name)).Nodup)
+    (d : Defn) (hd : d ∈ defs) (b : Nat) :
+    Edge (findDependencies defs).1 d.name b ↔
+      ∃ r ∈ d.refs, r.counts = true ∧ r.target = some b := by
+  unfold Edge findDependencies
+  simp only
+  rw [succs_map defs (·.name) _ hnd d hd, mem_dedup, List.mem_filterMap]
+  constructor
+  · rintro ⟨r, hr, ht⟩
+    rw [List.mem_filter] at hr
+    exact ⟨r, hr.1, hr.2, ht⟩
+  · rintro ⟨r, hr, hc, ht⟩
+    exact ⟨r, List.mem_filter.mpr ⟨hr, hc⟩, ht⟩
+
+example : (findDependencies [⟨1, [⟨some 2, 0, true, false, true⟩, ⟨some 3, 0, false, false, true⟩,
+    ⟨some 4, 0, true, true, false⟩]⟩]).1 = [(1, [2])] := by decide
+
+/-- `_find_module_import_dependencies`: every import is an edge, except the prelude's
+import of itself. -/
+theorem C15_import_edges (mods : List ModuleImports) (hnd : (mods.map (·.name)).Nodup)
+    (m : ModuleImports) (hm : m ∈ mods) (i : Nat) :
+    Edge (importGraph mods) m.name i ↔ i ∈ m.imports ∧ (i ≠ 0 ∨ m.name ≠ 0) := by
+  unfold Edge importGraph
+  rw [succs_map mods (·.name) _ hnd m hm, mem_dedup, List.mem_filter]
+  simp
+
+/-- A module other than the prelude that imports itself is an import cycle; the
+prelude's self-import is not. -/
+theorem C15_self_import (mods : List ModuleImports) (hnd : (mods.map (·.name)).Nodup) :
+    (∀ m ∈ mods, m.name ≠ 0 → m.name ∈ m.imports → cyclic (importGraph mods) m.name) ∧
+    ¬ Edge (importGraph mods) 0 0 := by
+  refine ⟨fun m hm h0 hi => .single ((C15_import_edges mods hnd m hm _).mpr ⟨hi, .inl h0⟩), ?_⟩
+  intro he
+  by_cases h : ∃ m ∈ mods, m.name = 0
+  · obtain ⟨m, hm, h0⟩ := h
+    have := (C15_import_edges mods hnd m hm 0).mp (h0 ▸ he)
+    rcases this.2 with h | h
+    · exact h rfl
+    · exact h h0
+  · have : succs (importGraph mods) 0 = [] :=
+      succs_map_none mods (·.name) _ 0 (fun x hx e => h ⟨x, hx, e⟩)
+    unfold Edge at he
+    simp [this] at he
+
+example : findModuleDependencyCycles [⟨0, [0]⟩, ⟨1, [0, 1]⟩, ⟨2, [0, 3]⟩, ⟨3, [0, 2]⟩] =
+    .cycles [[1], [2, 3]] := by decide
 
 end Emboss.Deps
